@@ -119,6 +119,8 @@ def show_err(e):
         return "X %s %s %d" % (info(e.constraint), spath(e.violator_path), int(e.exceeded_by))
     if isinstance(e, SizeConstraintSubceededError):
         return "U %s" % info(e.constraint)
+    if type(e).__name__ == "ParameterEncryptionMismatchError":
+        return "M %s %d %d" % (spath(e.path), 1 if e.expected else 0, 1 if e.found else 0)
     if isinstance(e, InputStreamBytesDepletedError):
         return "D %s" % oz(e.command_code)
     if isinstance(e, InputStreamSuperfluousBytesError):
@@ -188,8 +190,20 @@ def run_dec(abort, root, hexs, source="bytes"):
         rem = e.bytes_remaining
         out.append("RAISE %s rem=%s" % (show_err(e), hx(rem)))
     except Exception as e:  # noqa
-        out.append("CRASH %s" % type(e).__name__)
+        out.append("CRASH %s" % crash_name(e))
     return ";".join(out)
+
+
+def crash_name(e):
+    """exception class @ innermost function of tpmstream on the traceback"""
+    fn = "?"
+    tb = e.__traceback__
+    while tb is not None:
+        code = tb.tb_frame.f_code
+        if "tpmstream" in code.co_filename:
+            fn = code.co_name
+        tb = tb.tb_next
+    return "%s@%s" % (type(e).__name__, fn)
 
 
 def show_obj(o):
@@ -325,7 +339,7 @@ def collect(abort, root, hexs, source="bytes"):
     except ConstraintViolatedError as e:
         return evs, "RAISE %s rem=%s" % (show_err(e), hx(e.bytes_remaining)), e
     except Exception as e:  # noqa
-        return evs, "CRASH %s" % type(e).__name__, e
+        return evs, "CRASH %s" % crash_name(e), e
 
 
 def run_rt(abort, root, hexs):
